@@ -31,6 +31,18 @@ BQ_MORE = ['bq_from_slice_len_2', 'bq_from_slice_len_7', 'bq_from_slice_len_8', 
 NODE_ID = ['node_id_to_bytes_contract', 'node_id_roundtrip_via_contract', 'node_id_from_bytes_reference_layout', 'node_mode_try_from_all_codes']
 
 PROPS = {
+    'C03': {
+        'verus': {'reader_search': ['Reader::nns', 'Reader::nns_by_leaf', 'NodeId::unwrap_item'],
+                  'reader_open': ['QueryBuilder::by_vector', 'QueryBuilder::by_item', 'item_leaf', 'Reader::dimensions']},
+        'kani': {'quick': [('distance_side', ['default_oversampling_constants'])]},
+        'trusted': ['std BinaryHeap (pop returns a minimum through Reverse), sort_unstable + dedup, Vec::extend from a bitmap iterator: stand-in contracts in units/lib/reader_types.rs',
+                    'OrderedFloat is a total order (order-embedding fkey into the integers, uninterpreted)',
+                    'requires nodes_ok: Item keys hold leaves, Tree keys hold tree nodes whose children are Tree/Item references (local part of the C01 forest invariant)'],
+        'not_decided': ['budget monotonicity (enlarging the budget never shortens the result nor worsens a rank): needs the traversal as a spec function over the deterministic heap order; not built',
+                        'unlimited budget with a filter = exact search restricted to the filter (needs the C01 forest invariant as precondition and a reachability invariant of the traversal loop; not built)',
+                        'by_item(id) = by_vector(vector of id): both call nns_by_leaf whose contract mentions the query only through built_spec(query leaf, .); that new_header recomputes the header fields read by built_distance is not proved',
+                        'every returned id is in reader.item_ids(): needs metadata.items = item key set (C01 build contract)'],
+    },
     'C04': {
         'kani': {'quick': [('distance_side', ['side_follows_margin_sign', 'pq_distance_prefers_the_margin_side', 'pq_distance_from_root'])]},
         'static': ['no_override_side_pq'],
